@@ -238,6 +238,39 @@ def a01_constructors(ctx, groups=None, rule_id='A01', title=None, labels=None, m
     return r
 
 
+def a01t_parser_truncation(ctx):
+    """C18: a text parser that narrows a parsed number with a lossy `as` cast accepts texts that are not the text form of any value
+    (`sma-261` read as SMA(5))."""
+    f = ctx.facts('default')
+    m = Model(f)
+    r = RuleResult('A01t', 'no FromStr / TryFrom<&str|String> parser narrows a number it parsed with a lossy `as` cast (out-of-range text must be an error, not another value)')
+    n = 0
+    seen = set()
+    for group, label, bid in entry_points(m):
+        if group != 'parser':
+            continue
+        n += 1
+        ex, outs, status, dt = run_entry(f, bid)
+        r.inst(label)
+        for fn, src_ty, to, rng in ex.truncations:
+            key = '%s|%s->%s' % (strip_inst_(fn), src_ty, to)
+            if key in seen:
+                continue
+            seen.add(key)
+            b = ex.body(bid)
+            r.violate(key, '%s narrows a %s in [%s, %s] to %s with `as`: values outside %s wrap silently instead of being rejected (reached from %s)' % (
+                fn, src_ty, rng[0], rng[1], to, to, label), b.file, None)
+        if not ex.truncations:
+            r.sample({'parser': label, 'lossy casts': 0})
+    r.floor('parsers', 4, n)
+    return r
+
+
+def strip_inst_(fn):
+    import re as _re
+    return _re.sub(r'::<[^<>]*>', '', fn)
+
+
 def a01s_saturated_capacity(ctx, fs='default'):
     """C20: a saturating addition whose result can sit at the capacity of its integer type and is then used as a number (converted, added,
     stored) gives a width-dependent value: 255 on the default build where the wide builds compute 256."""
